@@ -43,8 +43,12 @@ RULES = {
     "`attr.type == GRAPH / GRAPHS` and read the attribute's graphs, an is_ref() test that skips the attribute comes first - a node of a "
     "function body may take its branches from attribute parameters (`RefAttr('then_branch', 'p', GRAPH)`); such an attribute holds "
     "nothing to walk, and a perfectly bounded region (or a function whose implicit captures are asked for) must not end in TypeError",
+    "R10": "what a loop found is not read off its last iteration (shared rule S17): in the extractor, the implicit-usage analysis and the "
+    "cloner, a statement that follows a loop reads neither the loop's variable nor a flag that the loop body resets at the start of every "
+    "iteration - `return tuple(new) if spec_changed else original` after the loop over a node's configurations answers for the last "
+    "configuration only, so the remapped earlier ones are dropped and the extracted node keeps sharding specs bound to values of the source",
 }
-FLOORS = {"R1": 1, "R2": 4, "R3": 3, "R4": 2, "R5": 1, "R6": 1, "R7": 1, "R8": 1, "R9": 2}
+FLOORS = {"R1": 1, "R2": 4, "R3": 3, "R4": 2, "R5": 1, "R6": 1, "R7": 1, "R8": 1, "R9": 2, "R10": 10}
 EXPLANATION = (
     "Return-value provenance of extract(), sibling agreement of the two subgraph-attribute branches, push/pop pairing "
     "and dominance of the boundary validation over the result."
@@ -361,7 +365,10 @@ def run(ctx):
     from ..shared import rule_s14
 
     rule_r8(ctx)
-    from ..shared import rule_s18
+    from ..shared import rule_s17, rule_s18
+
+    rule_s17(ctx, "R10", lambda f: f.module.name in ("onnx_ir._cloner", "onnx_ir._convenience._extractor", "onnx_ir.analysis._implicit_usage"),
+             "the extracted graph keeps references to objects of the source", floor=10)
 
     rule_s18(ctx, "R9", lambda name: name.startswith(("onnx_ir._convenience", "onnx_ir.analysis")),
              "extracting a bounded region that contains such a node, or analysing the implicit captures of such a function, fails instead of answering", floor=2)
